@@ -266,7 +266,9 @@ def parse_file(path, rel):
             clones.append(dict(file=rel, ty=tyname, which=trait, how="impl"))
         if m.group(2) and kind == "impl" and trait in ("Send", "Sync"):
             bounds = parse_bounds(generics, where)
-            markers.append(dict(file=rel, ty=tyname, selfty=selfty, which=trait, bounds=bounds))
+            tparams = [re.split(r"[:=]", part, 1)[0].strip() for part in split_top(generics)
+                       if part.strip() and not part.strip().startswith("'") and not part.strip().startswith("const ")]
+            markers.append(dict(file=rel, ty=tyname, selfty=selfty, which=trait, bounds=bounds, tparams=tparams))
             continue
         if trait and trait.split("<")[0] == "Iterator":
             im = re.search(r"type\s+Item\s*=\s*([^;]+);", body)
@@ -355,8 +357,9 @@ def main():
     for m in markers:
         def has(p, b):
             return "true" if b in m["bounds"].get(p, []) else "false"
+        others = "; ".join(f"({coq_str(p)}, {has(p, 'Send')}, {has(p, 'Sync')})" for p in m.get("tparams", []) if p not in ("K", "V"))
         rows.append(f"  mkMarker {coq_str(m['file'])} {coq_str(m['ty'])} {'MSend' if m['which'] == 'Send' else 'MSync'} "
-                    f"{has('K', 'Send')} {has('K', 'Sync')} {has('V', 'Send')} {has('V', 'Sync')}")
+                    f"{has('K', 'Send')} {has('K', 'Sync')} {has('V', 'Send')} {has('V', 'Sync')} [{others}]")
     L.append(";\n".join(rows))
     L.append("].\n")
     L.append("Definition items : list item := [")
